@@ -66,7 +66,12 @@ pub fn run_enum(name: &str, _args: &[String], w: &mut dyn Write) -> bool {
               let j = jdn_of(&x);
               let frac_ok = x.get_julian_day().get_day() + 0.5 == j as f64;
               let b = tyme4rs::tyme::jd::JulianDay::from_julian_day(j as f64 - 0.5).get_solar_day();
-              Some(format!("{} {} {} {} {} {} {} {}", y, m, d, j, x.get_week().get_index(), x.get_index_in_year(), fmt_day(&b), frac_ok as u8))
+              // order against the successor day and against itself: before(d,d+1) after(d,d+1) before(d+1,d) after(d+1,d) before(d,d) after(d,d)
+              let ord = if (y, m, d) == (9999, 12, 31) { "-".to_string() } else {
+                let n = x.next(1);
+                format!("{}{}{}{}{}{}", x.is_before(n) as u8, x.is_after(n) as u8, n.is_before(x) as u8, n.is_after(x) as u8, x.is_before(x) as u8, x.is_after(x) as u8)
+              };
+              Some(format!("{} {} {} {} {} {} {} {} {}", y, m, d, j, x.get_week().get_index(), x.get_index_in_year(), fmt_day(&b), frac_ok as u8, ord))
             });
             if line != REFUSED { writeln!(w, "{}", line).unwrap(); }
           }
